@@ -172,7 +172,12 @@ func marshalCase(t *gobinlog.Transaction, class string) Case {
 func weirdString(r *RNG, n int) string {
 	b := make([]byte, 0, n)
 	for len(b) < n {
-		switch r.Intn(10) {
+		switch r.Intn(11) {
+		case 10:
+			// valid but unusual code points, stored as such: the replacement character itself (text that went through
+			// a lossy conversion before it was stored), noncharacters, the last code point, BOM, line / paragraph
+			// separators, DEL - all valid UTF-8 and therefore data to be rendered verbatim
+			b = append(b, []byte([]string{"\uFFFD", "\uFFFE", "\uFFFF", "\U0010FFFF", "\uFEFF", "\u2028", "\u2029", "\u007F", "\u0080", "\uD7FF", "\uE000"}[r.Intn(11)])...)
 		case 9:
 			// text that already looks like JSON escapes (a document stored in a column, produced by an HTML-escaping
 			// encoder): literal backslash sequences must survive as data, whatever post-processing the marshaler does
